@@ -97,6 +97,19 @@ var alphaPad = []hx.Op{
 	{K: "del", Key: "a", Sync: true},
 }
 
+// unsynced writes of every kind, a rotation of the memtable and the WAL that does NOT wait for the
+// flush (a large batch), and synced writes into the new WAL
+var alphaMixed = []hx.Op{
+	{K: "set", Key: "a"},
+	{K: "del", Key: "b"},
+	{K: "batch", Big: true, Sub: sub(hx.Op{K: "set", Key: "c"})},
+	{K: "set", Key: "b", Sync: true},
+	{K: "merge", Key: "a"},
+	{K: "delrange", Key: "a", End: "c"},
+	{K: "set", Key: "c", Sync: true},
+	{K: "flush"},
+}
+
 var configs = map[string]hx.Config{
 	"base":         {Name: "base"},
 	"tinymem":      {Name: "tinymem", MemTableSize: 16 << 10},
@@ -104,6 +117,10 @@ var configs = map[string]hx.Config{
 	"nowal":        {Name: "nowal", DisableWAL: true},
 	"fmv-min":      {Name: "fmv-min", FMV: 13},
 	"valsep":       {Name: "valsep", ValSep: true},
+	// Options.NoSyncOnClose: files are not synced when they are closed - whatever recovery relies on
+	// must have been synced explicitly
+	"tinymem-nosynconclose": {Name: "tinymem-nosynconclose", MemTableSize: 16 << 10, NoSyncOnClose: true},
+	"nosynconclose":         {Name: "nosynconclose", NoSyncOnClose: true},
 }
 
 // Case is the replay artefact.
@@ -424,9 +441,11 @@ func plansFor(prop string, thorough bool) []plan {
 		return []plan{{"base", alphaFlush, 4, false}, {"nowal", alphaFlush, 4, false}, {"tinymem", alphaFlush, 3, false}, {"tinymanifest", alphaFlush, 3, false}, {"valsep", alphaFlush, 3, false}, {"fmv-min", alphaFlush, 3, false}, {"base", alphaFlush[:6], 3, true}}
 	default:
 		if !thorough {
-			return []plan{{"base", alphaSync, 3, false}, {"tinymanifest", alphaSync, 2, false}, {"tinymem", alphaSync, 2, false}, {"base", alphaSync[:8], 2, true}, {"tinymem", alphaBig, 3, false}}
+			// the small targeted plans first, the broad one last: a run cut short by its budget has then
+			// covered every configuration
+			return []plan{{"tinymanifest", alphaSync, 2, false}, {"tinymem", alphaSync, 2, false}, {"base", alphaSync[:8], 2, true}, {"tinymem", alphaBig, 3, false}, {"tinymem-nosynconclose", alphaMixed, 3, false}, {"base", alphaSync, 3, false}}
 		}
-		return []plan{{"base", alphaPad, 2, false}, {"base", alphaSync, 4, false}, {"tinymanifest", alphaSync, 3, false}, {"tinymem", alphaSync, 3, false}, {"fmv-min", alphaSync, 3, false}, {"valsep", alphaSync, 3, false}, {"base", alphaSync[:9], 3, true}, {"tinymanifest", alphaSync[:9], 2, true}, {"tinymem", alphaBig, 4, false}}
+		return []plan{{"base", alphaPad, 2, false}, {"base", alphaSync, 4, false}, {"tinymanifest", alphaSync, 3, false}, {"tinymem", alphaSync, 3, false}, {"fmv-min", alphaSync, 3, false}, {"valsep", alphaSync, 3, false}, {"base", alphaSync[:9], 3, true}, {"tinymanifest", alphaSync[:9], 2, true}, {"tinymem", alphaBig, 4, false}, {"tinymem-nosynconclose", alphaMixed, 4, false}, {"nosynconclose", alphaSync, 3, false}}
 	}
 }
 
